@@ -369,7 +369,8 @@ struct Transport::Impl
             {
               return; // M-3: don't grow a buffer no one will drain
             }
-            if (bufIt->second->data.size() + data.size() > config.maxSyncReceiveBuffer)
+            if (bufIt->second->overflow ||
+                bufIt->second->data.size() + data.size() > config.maxSyncReceiveBuffer)
             {
               // Overflow: surface a distinct error to the parked waiter instead
               // of silently dropping (which would only fail at the caller's
